@@ -10,6 +10,8 @@
   * `resume_fuel_mono`, `cmd_fuel_mono` : lifted to the resuming commands step / step into k /
     step out / continue.
   * `cmd_fuel_agree` : two budgets that both suffice agree.
+  * `script_fuel_mono` : whole sessions — a script in which no command ran out of budget gives
+    the same log, instruction count and ending under every larger per-command budget.
 -/
 import Lace.Spec.RefDebug
 namespace Lace.C10
@@ -69,6 +71,30 @@ theorem cmd_fuel_agree (so mi : Bool) (bps : BpSet) (f₁ f₂ : Nat) (m : Machi
     exact (cmd_fuel_mono so mi bps k f₁ m w c h₁).symm
   · obtain ⟨k, rfl⟩ := Nat.exists_eq_add_of_le h
     exact cmd_fuel_mono so mi bps k f₂ m w c h₂
+
+/-- No command of the session ran out of budget. -/
+def Finished (r : Result) : Prop :=
+  match r.final with
+  | .fuel _ _ => False
+  | _ => True
+
+@[simp] theorem finished_cons (e : Entry) (r : Result) : Finished (r.cons e) ↔ Finished r := Iff.rfl
+
+theorem script_fuel_mono (so mi : Bool) (f j : Nat) : ∀ (cs : List Cmd) (k : Nat) (bps : BpSet)
+    (m : Machine) (w : World), Finished (runScript so mi f k cs bps m w) →
+    runScript so mi (f + j) k cs bps m w = runScript so mi f k cs bps m w := by
+  intro cs
+  induction cs with
+  | nil => intro k bps m w _; simp [runScript]
+  | cons c rest ih =>
+    intro k bps m w h
+    simp only [runScript, finished_cons] at h ⊢
+    have hr : Returned (run so mi bps f m w c) := by
+      cases hc : run so mi bps f m w c <;> simp only [hc] at h <;> simp [Returned]
+      simp [Finished] at h
+    rw [cmd_fuel_mono so mi bps j f m w c hr]
+    cases hc : run so mi bps f m w c <;> simp only [hc] at h ⊢
+    rw [ih _ _ _ _ h]
 
 /-- Non-vacuity: a breakpoint command returns at once, with any budget. -/
 example (so mi : Bool) (bps : BpSet) (f : Nat) (m : Machine) (w : World) (t : Target) :
